@@ -54,7 +54,7 @@ ASSUMPTIONS = [
     "universe of 5 (thorough 6) servers, 4 storage indexes; get_servers_for_psi has no size-dependent branch",
     "set iteration inside the broker is over id()-hashed server objects; it is varied by building an independent broker and fresh objects per insertion order (PYTHONHASHSEED has no influence on it)",
     "the upload paths (immutable/upload.py, mutable/publish.py) are exercised on the virtual grid with vt.grid.VBroker (a permuting broker with the real one's for_upload semantics), at the default schedule only",
-    "storage_client.py builds its verifier without now_fn; allmydata.grid_manager.current_datetime_with_zone is rebound to the virtual clock; twisted's plugin scan is done once and cached",
+    "storage_client.py builds its verifier without now_fn; the virtual clock is installed below allmydata.grid_manager.current_datetime_with_zone (the module's `datetime` name is a subclass whose now(tz) answers from the virtual clock, naive local time when tz is None); one insertion order is evaluated again with the process in two other time zones; twisted's plugin scan is done once and cached",
     "servers whose permutation seeds are equal may be returned in either relative order (statement silent)",
 ]
 
@@ -65,6 +65,23 @@ NOW = [T0]
 
 def _now():
     return NOW[0]
+
+
+def install_clock():
+    """The virtual clock is installed BELOW allmydata.grid_manager.current_datetime_with_zone: the module's `datetime`
+    name is bound to a subclass whose now(tz) answers from NOW[0] the way the real one does (tz=None: naive LOCAL
+    time of the process, honouring TZ).  The function that reads the clock stays the code under test."""
+    from datetime import datetime as _dt
+
+    class VDatetime(_dt):
+        @classmethod
+        def now(cls, tz=None):
+            return cls.fromtimestamp((NOW[0] - EPOCH).total_seconds(), tz)
+
+        @classmethod
+        def utcnow(cls):
+            return cls.utcfromtimestamp((NOW[0] - EPOCH).total_seconds())
+    gm.datetime = VDatetime
 
 
 class FakeRref(object):
@@ -156,7 +173,7 @@ def universe(seed, n):
 
 def build_broker(U, order, P, pref_ids, with_gm, scc=None):
     cache_plugin_scan()
-    gm.current_datetime_with_zone = _now
+    install_clock()
     if scc is None:
         scc = StorageClientConfig(preferred_peers=tuple(pref_ids),
                                   grid_manager_keys=[U.gm1.vk] if with_gm else [])
@@ -264,6 +281,18 @@ def subsets(n):
             yield c
 
 
+def _tz_chunk(chunk, seed, tz):
+    """the same evaluations with the process in another time zone: every client computes the same answer"""
+    from .c48 import in_zone
+    with in_zone(tz):
+        res = _chunk(chunk, seed)
+    for v in res.violations:
+        v["case"]["tz"] = tz
+        v["sig"] = v["sig"] + "@TZ"
+    res.counts["tz_evaluations"] = res.counts.get("evaluations", 0)
+    return res
+
+
 def _chunk(chunk, seed):
     res = common.Result()
     for (n, order, P) in chunk:
@@ -312,6 +341,10 @@ def _config_chunk(chunk, seed):
 
 
 def replay(case, res=None):
+    if case.get("tz"):
+        from .c48 import in_zone
+        with in_zone(case["tz"]):
+            return [(sig + "@TZ", msg) for (sig, msg) in replay({k: v for k, v in case.items() if k != "tz"}, res)]
     if "grid" in case:
         from .. import boot as _boot
         S, banned, what = case["grid"]
@@ -453,6 +486,9 @@ def run(tier, seed):
         universe(seed, n)
         items += [(n, o, P) for P in subsets(n) for o in orders]
     res = common.pmap(_chunk, items, (seed,))
+    # clients in other time zones (POSIX TZ strings): one insertion order, every certificate subset
+    for tz in ("PST8PDT,M3.2.0,M11.1.0", "IST-5:30"):
+        res.merge(common.pmap(_tz_chunk, [it for it in items if tuple(it[1]) == tuple(plan[0][1][0])], (seed, tz)))
     res.merge(common.pmap(_config_chunk, [(n, pref) for n, _ in plan for pref in subsets(n)], (seed,), chunks=1))
     gitems = [(S, tuple(b), what) for S in (3, 4, 5) for b in ([0], [1], [S - 1], [0, 1]) for what in ("immutable", "SDMF", "MDMF")]
     res.merge(common.pmap(_grid_chunk, gitems, (seed,)))
@@ -482,5 +518,5 @@ MANIFEST = {
     "engine": "E",
     "technique": "exhaustive enumeration of insertion orders x certificate assignments x preferred subsets x connected subsets x storage indexes on the real StorageFarmBroker with real server objects",
     "text": "Five real server objects (four NativeStorageServer, one HTTPNativeStorageServer, seeds from all three branches of _parse_announcement, real grid-manager verifiers over certificates carried in the announcements) are added to a fresh StorageFarmBroker in 4 (thorough: all 120) insertion orders; for every certificate assignment, preferred subset, connected subset and 4 storage indexes the answer of get_servers_for_psi (read, upload before/after a certificate expires, upload with no key configured) is compared with connected-and-certified servers sorted by (not preferred, SHA-1(si+seed)) recomputed independently. peers.preferred is also fed through tahoe.cfg and StorageClientConfig.from_node_config.",
-    "note": "The grid half (no allocate_buckets / write ever reaches an unpermitted server) is checked on the virtual grid for immutable upload and SDMF/MDMF create+overwrite with 1-2 unpermitted servers out of 3-5 (default schedule). Clock: allmydata.grid_manager.current_datetime_with_zone rebound; twisted plugin scan cached.",
+    "note": "The grid half (no allocate_buckets / write ever reaches an unpermitted server) is checked on the virtual grid for immutable upload and SDMF/MDMF create+overwrite with 1-2 unpermitted servers out of 3-5 (default schedule). Clock: datetime.now seam inside allmydata.grid_manager (current_datetime_with_zone itself is code under test), also under two other TZ values; twisted plugin scan cached.",
 }
